@@ -1,0 +1,164 @@
+//go:build verif
+
+package rpc
+
+import (
+	"context"
+	"fmt"
+	"slices"
+
+	am "github.com/pancsta/asyncmachine-go/pkg/machine"
+	"github.com/pancsta/asyncmachine-go/pkg/rpc/states"
+)
+
+// Verification hooks, compiled only with `-tags verif`. Add-only wrappers
+// exposing the clock-diff codec without a network.
+
+// VerifData is an exported view of tracerData.
+type VerifData struct {
+	d *tracerData
+}
+
+func (v *VerifData) MTime() am.Time {
+	if v == nil || v.d == nil {
+		return nil
+	}
+	return slices.Clone(v.d.mTime)
+}
+func (v *VerifData) TrackedSum() uint64 { return v.d.mTrackedTimeSum }
+func (v *VerifData) QueueTick() uint64  { return v.d.queueTick }
+func (v *VerifData) MachTick() uint32   { return v.d.machTick }
+func (v *VerifData) Checksum() uint8    { return v.d.checksum }
+func (v *VerifData) TrackedIdxs() []int { return slices.Clone(v.d.trackedIdxs) }
+
+// VerifNewData builds a tracerData by hand (for the Hello-time lastPushData).
+func VerifNewData(mTime am.Time, trackedSum, qTick uint64, machTick uint32,
+) *VerifData {
+	return &VerifData{d: &tracerData{
+		mTime:           mTime,
+		mTrackedTimeSum: trackedSum,
+		queueTick:       qTick,
+		machTick:        machTick,
+	}}
+}
+
+// VerifNewTracerServer returns a network-less Server with an active source
+// tracer, configured like RemoteHello configures it.
+func VerifNewTracerServer(
+	source *am.Machine, syncSchema, shallow, mutations bool,
+	allowed, skipped am.S,
+) *Server {
+	s := &Server{
+		Source:            source,
+		syncSchema:        syncSchema,
+		syncShallowClocks: shallow,
+		syncMutations:     mutations,
+		syncAllowedStates: allowed,
+		syncSkippedStates: skipped,
+		lastPushData:      &tracerData{},
+	}
+	s.tracer = &sourceTracer{s: s, active: true}
+	return s
+}
+
+// VerifSnapshot runs the real sourceTracer.TransitionEnd on the source
+// machine's current clocks and returns the collected data.
+func (s *Server) VerifSnapshot(mutType am.MutationType, called []int,
+) *VerifData {
+	src, _ := s.Source.(*am.Machine)
+	tx := &am.Transition{
+		Machine:  src,
+		MachApi:  s.Source,
+		Mutation: &am.Mutation{Type: mutType, Called: called},
+	}
+	s.tracer.TransitionEnd(tx)
+	s.lockCollection.Lock()
+	defer s.lockCollection.Unlock()
+	if s.tracer.dataLatest == nil {
+		return nil
+	}
+	d := *s.tracer.dataLatest
+	return &VerifData{d: &d}
+}
+
+// VerifDataQueue returns and flushes the per-mutation queue the way
+// pushClient / newMsgMutation consume it.
+func (s *Server) VerifDataQueueLen() int {
+	s.lockCollection.Lock()
+	defer s.lockCollection.Unlock()
+	return len(s.tracer.dataQueue)
+}
+
+// VerifCalcUpdate calls calcUpdate. A panic is reported as an error.
+func (s *Server) VerifCalcUpdate(data, last *VerifData) (
+	upd *MsgSrvUpdate, err error,
+) {
+	defer func() {
+		if r := recover(); r != nil {
+			err = fmt.Errorf("panic: %v", r)
+		}
+	}()
+	return calcUpdate(s.syncSchema, data.d, last.d, s.syncShallowClocks), nil
+}
+
+// VerifCalcUpdateMuts calls calcUpdateMutations on the tracer's mutation
+// queue (flushing it through the real DataQueue getter).
+func (s *Server) VerifCalcUpdateMuts(last *VerifData) (
+	upd *MsgSrvUpdateMuts, n int, err error,
+) {
+	defer func() {
+		if r := recover(); r != nil {
+			err = fmt.Errorf("panic: %v", r)
+		}
+	}()
+	q := s.tracer.DataQueue()
+	return calcUpdateMutations(s.syncSchema, q, last.d), len(q), nil
+}
+
+// VerifClientApply decodes an update against a mirror the way
+// Client.clockUpdate does (clockFromUpdate + checksum comparison), without
+// a network machine.
+func VerifClientApply(
+	shallow bool, trackedIdxs []int, update *MsgSrvUpdate, timeBefore am.Time,
+	qTickBefore uint64, machTickBefore uint32,
+) (mTime am.Time, qTick uint64, machTick uint32, accepted bool, err error) {
+	defer func() {
+		if r := recover(); r != nil {
+			err = fmt.Errorf("panic: %v", r)
+		}
+	}()
+	c := &Client{SyncShallowClocks: shallow, trackedStateIdxs: trackedIdxs}
+	mTime, qTick, machTick = c.clockFromUpdate(update, timeBefore, qTickBefore,
+		machTickBefore)
+
+	// same comparison as Client.clockUpdate
+	checksumTime := mTime
+	if c.SyncShallowClocks {
+		checksumTime = am.NewTime(checksumTime, c.trackedStateIdxs)
+	}
+	check := Checksum(checksumTime.Sum(nil), qTick, machTick)
+
+	return mTime, qTick, machTick, check == update.Checksum, nil
+}
+
+var verifSrvMach *am.Machine
+
+// VerifHello runs the real RemoteHello against the source machine's current
+// clocks (no network, handler-less server machine with Start active) and
+// returns the Serialized sent to the client plus the memorised lastPushData.
+func (s *Server) VerifHello(req *MsgCliHello) (
+	ser *am.Serialized, last *VerifData, err error,
+) {
+	if verifSrvMach == nil {
+		verifSrvMach = am.New(context.Background(), states.ServerSchema,
+			&am.Opts{Id: "verif-srv"})
+		_ = verifSrvMach.VerifyStates(states.ServerStates.Names())
+		verifSrvMach.Add1(ssS.Start, nil)
+	}
+	s.Mach = verifSrvMach
+	resp := &MsgSrvHello{}
+	if err := s.RemoteHello(nil, req, resp); err != nil {
+		return nil, nil, err
+	}
+	return resp.Serialized, &VerifData{d: s.lastPushData}, nil
+}
